@@ -12,6 +12,7 @@ COMPONENTS = {
     "dyn": dict(driver_mode="dyn", targets=[("dyn", "dyn.cpp", "")]),
     "var": dict(driver_mode="var", targets=[("var", "var.cpp", "")]),
     "map": dict(driver_mode="map", targets=[("map", "map.cpp", "")]),
+    "mul": dict(driver_mode="mul", targets=[("multi", "multi.cpp", "")]),
 }
 
 TRUSTED_COMMON = [
@@ -51,6 +52,10 @@ PROPS = {
     "C11": P(comp="map", gen=lambda t, s: gens.gen_map(t, s), judges=["C11"], kinds=("MAP",),
              nontrivial=lambda line: len(line.split("|")[1].split()) >= 3),
     "C12": P(comp="map", gen=lambda t, s: gens.gen_map(t, s + 4), judges=["C12"], kinds=("MAP",),
+             nontrivial=lambda line: len(line.split("|")[1].split()) >= 3),
+    "C13": P(comp="mul", gen=lambda t, s: gens.gen_multi(t, s), judges=["C13"], kinds=("MUL",),
+             nontrivial=lambda line: len(line.split("|")[1].split()) >= 3),
+    "C14": P(comp="mul", gen=lambda t, s: gens.gen_multi(t, s + 8), judges=["C14"], kinds=("MUL",),
              nontrivial=lambda line: len(line.split("|")[1].split()) >= 3),
     "C03": P(comp="idx", gen=lambda t, s: gens.gen_seg(t, s), judges=["C03"], kinds=("SEG",),
              nontrivial=lambda line: len(line.split("|")[1].split()) >= 3),
